@@ -47,14 +47,23 @@ def gmt_form(rng, h=None, m=None, sign=None):
 
 
 def zone(rng):
-    """(text, display name, offset minutes)"""
+    """(text, display name, offset minutes); the zone parser reads the upper-cased line, so a zone may
+    be written in lower case inside an expression (not in set_timezone) - one in ten is"""
+    low = rng.random() < 0.1
     if rng.random() < 0.7:
         z = rng.choice(ZONES)
-        return z, z, TABLE[z]
+        return (z.lower() if low else z), z, TABLE[z]
     t, o = gmt_form(rng)
-    return t, t, o
+    return (t.lower() if low else t), t, o
 
 
+# EXCLUDED from the generator (reported, see Properties/C11.v C11_meridiem_with_seconds_refuted):
+#   * `H:MM:SS am/pm`: the regexes with seconds have no meridiem group; minimal input `1:20:30 pm` gives 01:20:30 UTC
+#     (expected 13:20:30), `11:59:59 PM + 1 second` gives 12:00:00.  Model and crate agree.
+#   * `12:xx am/pm` (12:30 am -> 12:30): left out by the statement itself.
+#   * zone names that are also currency codes (`10:30 TMT` is 10 and `30 TMT` money) and names the syntax cannot
+#     express (ChST, ANAST, ...): left out by the statement.
+#   * `T1 ZONE to T2 ZONE` ("No more token"): the statement's `T1 to T2` has no zones.
 CORNER_W = [0, 1, 59, 60, 3599, 3600, 43199, 43200, 43201, 86399, 86340, 82800, 1800, 37800]
 
 
@@ -127,8 +136,8 @@ def default_zone(rng, p=0.35):
     """(pre ops, (name, offset)) - the configured default zone of the case"""
     if rng.random() >= p:
         return [], ("UTC", 0)
-    t, n, o = zone(rng)
-    return [{"op": "set_tz", "v": t}, {"op": "get_tz"}], (n, o)
+    _, n, o = zone(rng)
+    return [{"op": "set_tz", "v": n}, {"op": "get_tz"}], (n, o)
 
 
 def conv_case(rng, a, b, w=None, explicit_default=None):
